@@ -418,12 +418,33 @@ func (t *Table) cellAtGrid(row, gridCol, span int) *TableCell {
 	if row < 0 || row >= len(t.Rows) {
 		return nil
 	}
+	// 一次遍历累加网格列，不对每个单元格重新求起始列（很宽的行上那样是平方级的）
+	start := 0
 	for i := range t.Rows[row].Cells {
-		if cellGridStart(&t.Rows[row], i) == gridCol && cellGridSpan(&t.Rows[row].Cells[i]) == span {
+		cellSpan := cellGridSpan(&t.Rows[row].Cells[i])
+		if start == gridCol && cellSpan == span {
 			return &t.Rows[row].Cells[i]
 		}
+		if start >= gridCol {
+			return nil
+		}
+		start += cellSpan
 	}
 	return nil
+}
+
+// rowCellsByGridStart 返回一行中各单元格按起始网格列的索引（起始网格列 -> 单元格）
+func (t *Table) rowCellsByGridStart(row int) map[int]*TableCell {
+	if row < 0 || row >= len(t.Rows) {
+		return nil
+	}
+	index := make(map[int]*TableCell, len(t.Rows[row].Cells))
+	start := 0
+	for i := range t.Rows[row].Cells {
+		index[start] = &t.Rows[row].Cells[i]
+		start += cellGridSpan(&t.Rows[row].Cells[i])
+	}
+	return index
 }
 
 // InsertRow 在指定位置插入行
@@ -506,22 +527,39 @@ func (t *Table) InsertRow(position int, data []string) error {
 	// 插入位置位于垂直合并区域内部（下一行有 continue 单元格）：新行中对应的单元格加入该合并区域
 	if position > 0 && position < len(t.Rows) {
 		below := &t.Rows[position]
-		for j := len(below.Cells) - 1; j >= 0; j-- {
-			start, span := cellGridStart(below, j), cellGridSpan(&below.Cells[j])
-			if cellVMerge(&below.Cells[j]) != "continue" || start+span > len(newRow.Cells) {
-				continue
+		// 下一行中 continue 单元格的起始网格列 -> 跨度（一次遍历）
+		continued := make(map[int]int)
+		start := 0
+		for j := range below.Cells {
+			span := cellGridSpan(&below.Cells[j])
+			if cellVMerge(&below.Cells[j]) == "continue" && start+span <= len(newRow.Cells) {
+				continued[start] = span
 			}
-			joined := newRow.Cells[start]
-			joined.Paragraphs = []Paragraph{{}}
-			if joined.Properties == nil {
-				joined.Properties = &TableCellProperties{}
+			start += span
+		}
+		if len(continued) > 0 {
+			// 按网格列重建新行：合并区域所在的列收成一个 continue 单元格，其余列保持一列一个单元格
+			cells := make([]TableCell, 0, len(newRow.Cells))
+			for g := 0; g < len(newRow.Cells); {
+				span, ok := continued[g]
+				if !ok {
+					cells = append(cells, newRow.Cells[g])
+					g++
+					continue
+				}
+				joined := newRow.Cells[g]
+				joined.Paragraphs = []Paragraph{{}}
+				if joined.Properties == nil {
+					joined.Properties = &TableCellProperties{}
+				}
+				joined.Properties.VMerge = &VMerge{Val: "continue"}
+				if span > 1 {
+					joined.Properties.GridSpan = &GridSpan{Val: fmt.Sprintf("%d", span)}
+				}
+				cells = append(cells, joined)
+				g += span
 			}
-			joined.Properties.VMerge = &VMerge{Val: "continue"}
-			if span > 1 {
-				joined.Properties.GridSpan = &GridSpan{Val: fmt.Sprintf("%d", span)}
-			}
-			rest := append([]TableCell{joined}, newRow.Cells[start+span:]...)
-			newRow.Cells = append(newRow.Cells[:start], rest...)
+			newRow.Cells = cells
 		}
 	}
 
@@ -551,16 +589,21 @@ func (t *Table) repairVerticalMerges(rowIndex int) {
 		return
 	}
 	row := &t.Rows[rowIndex]
+	// 上下两行各建一次索引，整行修复保持线性（逐个单元格扫描相邻行在很宽的行上不可用）
+	aboveCells, belowCells := t.rowCellsByGridStart(rowIndex-1), t.rowCellsByGridStart(rowIndex+1)
+	start := 0
 	for j := range row.Cells {
 		cell := &row.Cells[j]
+		span := cellGridSpan(cell)
+		cellStart := start
+		start += span
 		if cellVMerge(cell) != "continue" {
 			continue
 		}
-		start, span := cellGridStart(row, j), cellGridSpan(cell)
-		if above := t.cellAtGrid(rowIndex-1, start, span); above != nil && cellVMerge(above) != "" {
+		if above := aboveCells[cellStart]; above != nil && cellGridSpan(above) == span && cellVMerge(above) != "" {
 			continue
 		}
-		if below := t.cellAtGrid(rowIndex+1, start, span); below != nil && cellVMerge(below) == "continue" {
+		if below := belowCells[cellStart]; below != nil && cellGridSpan(below) == span && cellVMerge(below) == "continue" {
 			cell.Properties.VMerge = &VMerge{Val: "restart"}
 		} else {
 			cell.Properties.VMerge = nil
